@@ -109,8 +109,84 @@ def spellerPre (env : Env) (isInitial : Bool) (c : Ctx) : Ctx :=
 def spellerPost (env : Env) (r : Ctx × Bool) : Ctx :=
   if r.2 then r.1 else if env.autoClear = .auto then (spellerAutoClear env r.1).1 else r.1
 
-/-- Speller::ProcessKeyEvent (AutoSelectPreviousMatch is modelled only in its immediate `false`
-cases: `auto_select` off, or `max_code_length > 0`; schemas outside that class are not in the corpus) -/
+/-- the candidate positions `--end > start` of FindEarlierMatch's loop: end-1, end-2, …, start+1 -/
+def femEnds (start : Nat) : Nat → List Nat
+  | 0 => []
+  | e + 1 => if e > start then e :: femEnds start e else []
+
+/-- the selection branch of FindEarlierMatch's loop (`converted = input.take e` is the current input):
+returns the new state and the value `end` has afterwards -/
+def femSelect (env : Env) (input : Bytes) (e : Nat) (c1 : Ctx) : Ctx × Nat :=
+  if c1.getOption "_auto_commit" then (Ctx.setInput env (Ctx.commit env c1).1 (input.drop e), 0)
+  else (Ctx.setInput env (Ctx.confirmCurrentSelection env c1).1 input, e)
+
+/-- `if (!ctx->HasMenu()) { … if (next_start == end) FindEarlierMatch(ctx, next_start, next_end); }` -/
+def femContinue (k : Nat → Nat → Ctx → Ctx × Bool) (r : Ctx × Nat) : Ctx :=
+  if !r.1.hasMenu && r.1.comp.currentStart = r.2 then (k r.1.comp.currentStart r.1.comp.currentEnd r.1).1 else r.1
+
+/-- the `while (--end > start)` loop of Speller::FindEarlierMatch; `k` is the recursive call
+(`FindEarlierMatch(ctx, next_start, next_end)`), `input` the input on entry -/
+def femGo (env : Env) (k : Nat → Nat → Ctx → Ctx × Bool) (input : Bytes) : List Nat → Ctx → Ctx × Bool
+  | [], c => (Ctx.setInput env c input, false)
+  | e :: es, c =>
+    let c1 := Ctx.setInput env c (input.take e)
+    if !c1.hasMenu then (Ctx.setInput env c1 input, false)
+    else match c1.selectedCand with
+      | none => femGo env k input es c1      -- C++ dereferences the candidate; a menu with candidates has one at index 0 (C01)
+      | some cd =>
+        if isAutoSelectable cd (input.take e) env.delimiters then (femContinue k (femSelect env input e c1), true)
+        else femGo env k input es c1
+
+/-- Speller::FindEarlierMatch.  The C++ recursion has no counter; every recursive call works on a
+strictly shorter input (auto-commit) or a strictly later start, so `fuel = |input| + 1` is never exhausted. -/
+def findEarlierMatch (env : Env) : Nat → Nat → Nat → Ctx → Ctx × Bool
+  | 0, _, _, c => (c, false)
+  | fuel + 1, start, end_, c =>
+    if end_ ≤ start + 1 then (c, false)
+    else femGo env (findEarlierMatch env fuel) c.input (femEnds start end_) c
+
+/-- `ctx->composition().pop_back(); ctx->composition().push_back(std::move(*previous_segment));` -/
+def Ctx.replaceLastSeg (c : Ctx) (p : Seg) : Ctx :=
+  { c with comp := { c.comp with segs := c.comp.segs.dropLast ++ [p] } }
+
+/-- `is_auto_selectable(previous_segment->GetSelectedCandidate(), converted, delimiters_)` -/
+def prevSelectable (env : Env) (p : Seg) (input : Bytes) : Bool :=
+  match p.selected with
+  | some cd => isAutoSelectable cd (input.take p.stop) env.delimiters
+  | none => false     -- C++ dereferences; `prev` had a menu with candidates and a valid index (C01)
+
+/-- the "reuse previous match" branch of AutoSelectPreviousMatch -/
+def reusePreviousMatch (env : Env) (p : Seg) (c : Ctx) : Ctx :=
+  let c2 := (Ctx.confirmCurrentSelection env (c.replaceLastSeg p)).1
+  if c2.getOption "_auto_commit" then
+    Ctx.setInput env (Ctx.commit env (Ctx.setInput env c2 (c.input.take p.stop))).1 (c.input.drop p.stop)
+  else c2
+
+/-- Speller::AutoSelectPreviousMatch; `prev` = the copy of the last segment taken before the key was
+added to the input (`none` = default-constructed Segment: no menu).  `auto_select_pattern` is not
+modelled (empty). -/
+def autoSelectPreviousMatch (env : Env) (prev : Option Seg) (c : Ctx) : Ctx × Bool :=
+  if !env.autoSelect then (c, false)
+  else if env.maxCodeLength > 0 then (c, false)
+  else if c.hasMenu then (c, false)
+  else match prev with
+    | none => (c, false)
+    | some p =>
+      if p.menu.isNone then (c, false)
+      else if prevSelectable env p c.input then (reusePreviousMatch env p c, true)
+      else findEarlierMatch env (c.input.length + 1) p.start p.stop c
+
+/-- `previous_segment` of Speller::ProcessKeyEvent -/
+def spellerPrev (env : Env) (c : Ctx) : Option Seg :=
+  if env.autoSelect && c.hasMenu then c.comp.segs.getLast? else none
+
+/-- the part of Speller::ProcessKeyEvent after the key was added to the input -/
+def spellerTail (env : Env) (isInitial : Bool) (prev : Option Seg) (c2 : Ctx) : Ctx × PResult :=
+  let r := autoSelectPreviousMatch env prev c2
+  if r.2 && !isInitial && r.1.comp.currentSegLen = 1 then ((Ctx.popInput env r.1 1).1, .noop)
+  else (spellerPost env (autoSelectUniqueCandidate env r.1), .accepted)
+
+/-- Speller::ProcessKeyEvent -/
 def spellerProcess (env : Env) (k : Key) (c : Ctx) : Ctx × PResult :=
   if k.release || k.ctrl || k.alt || k.super then (c, .noop)
   else if k.code < 0x20 || k.code ≥ 0x7f then (c, .noop)
@@ -122,8 +198,8 @@ def spellerProcess (env : Env) (k : Key) (c : Ctx) : Ctx × PResult :=
       let isInitial := env.initials.contains ch
       if !isInitial && expectingAnInitial env c then (c, .noop)
       else
-        let c2 := (Ctx.pushInput env (spellerPre env isInitial c) ch).beginEditing
-        (spellerPost env (autoSelectUniqueCandidate env c2), .accepted)
+        let c1 := spellerPre env isInitial c
+        spellerTail env isInitial (spellerPrev env c1) (Ctx.pushInput env c1 ch).beginEditing
 
 /-! ### Selector -/
 
